@@ -352,9 +352,9 @@ func init() {
 	register(&Check{
 		Prop:   "C07",
 		Engine: "crash",
-		Rule:   "every history within the bound, followed by Merge (both scan orders) and by Merge + adopting restart: a crash image after EVERY I/O event of Merge / of the adopting Open (plus, before each remove-all, every subset of the directory's entries already gone); each image is opened with the real Open and must expose exactly the acknowledged mapping; nested: the recovery Open is itself recorded and crashed after each of ITS events, down to the nesting depth; plus, under the controlled scheduler, Close racing a running Merge (all schedules up to the preemption bound): the next two Opens expose the acknowledged mapping. states = distinct crash images (all levels)",
+		Rule:   "every history within the bound, followed by Merge (both scan orders) and by Merge + adopting restart: a crash image after EVERY I/O event of Merge / of the adopting Open (plus, before each remove-all, every subset of the directory's entries already gone); each image is opened with the real Open and must expose exactly the acknowledged mapping; nested: the recovery Open is itself recorded and crashed after each of ITS events, down to the nesting depth; plus, under the controlled scheduler, Close racing a running Merge (all schedules up to the preemption bound): the next two Opens expose the acknowledged mapping; and Merge racing one writer (Put / Delete / batch / a batch flushed in pieces): ALL schedules (preemption bound 4 in the quick tier), a crash image after EVERY I/O call of either thread, every power-loss cut of the unsynced tails, and the crash points of each image's own recovery: the mapping before or after the writer's call (only after it once the call returned and the process merely died). states = distinct crash images (all levels)",
 		Assumptions: []string{
-			"process death only (no tail cuts): file-system calls are atomic and durable in issue order",
+			"sequential levels: process death only (no tail cuts): file-system calls are atomic and durable in issue order; the racing level also cuts unsynced tails",
 			"remove-all is additionally expanded into every subset of already removed entries (<= 6 entries) without changing what the real call does",
 			"Standard I/O (DataFileSize 130 and 64) and MMap (64, histories one shorter)",
 		},
@@ -391,7 +391,13 @@ func init() {
 			if tier == "thorough" {
 				rpb = -1
 			}
-			for _, c := range []Cfg{defaultCfg} {
+			rcfgs := []Cfg{defaultCfg}
+			if tier == "thorough" {
+				bt := defaultCfg
+				bt.Index = 1
+				rcfgs = append(rcfgs, c64, mm, bt)
+			}
+			for _, c := range rcfgs {
 				for _, name := range sortedKeys(c08MergeInits) {
 					for _, wr := range c07RaceWriters {
 						tasks = append(tasks, Task{Level: "crash-during-merge-race", Name: fmt.Sprintf("crash during merge race %s %s %s", c, name, wr), Fn: c07CrashDuringRace(c, name, c08MergeInits[name], wr, rpb, true)})
@@ -554,6 +560,7 @@ func judgeRaceSnap(cfg Cfg, s raceSnap, img *Snap, power bool, pre, post map[str
 func c07CrashDuringRace(cfg Cfg, initName string, init []Op, writer Op, pb int, power bool) func(res *TaskResult) {
 	return func(res *TaskResult) {
 		seen := map[uint64]bool{}
+		nestedSeen := map[uint64]bool{}
 		text := fmt.Sprintf("%s init=%s[%s] T0[merge] || T1[%s], crash after every I/O call", cfg, initName, traceString(init), writer)
 		n, complete := exploreSchedules(func(prefix []int8) *ExecResult {
 			ex, snaps, pre, post := runRaceCrash(cfg, init, writer, prefix)
@@ -593,6 +600,14 @@ func c07CrashDuringRace(cfg Cfg, initName string, init []Op, writer Op, pb int, 
 					if bad := judgeRaceSnap(cfg, s, s.snap, false, pre, post, res); bad != "" {
 						report(s, s.snap, "", bad)
 						break
+					}
+					// the recovery of this image is itself crashed after each of its I/O calls (removal of an unfinished
+					// merge directory, adoption of a finished one): every nested image recovers to the same mapping
+					if r := recoverImage(s.snap, cfg, keysAB, res); r.OpenErr == "" && r.Dump != nil && r.Dump.Err == "" {
+						if v := judgeNested(cfg, keysAB, nil, s.snap, r.Dump.KV, 2, []string{fmt.Sprintf("race image after I/O call #%d (%s)", s.idx, s.ev)}, nestedSeen, res); v != nil {
+							report(s, s.snap, "", "nested: "+v.Clause+"\n"+v.Detail)
+							break
+						}
 					}
 				}
 				if !power {
@@ -657,6 +672,11 @@ func replayRaceCrash(raw json.RawMessage) {
 	bad := ""
 	if r.Cut == "" {
 		bad = judgeRaceSnap(r.Cfg, s, s.snap, false, pre, post, &res)
+		if rr := recoverImage(s.snap, r.Cfg, keysAB, &res); bad == "" && rr.OpenErr == "" && rr.Dump != nil && rr.Dump.Err == "" {
+			if v := judgeNested(r.Cfg, keysAB, nil, s.snap, rr.Dump.KV, 2, []string{"race image"}, map[uint64]bool{}, &res); v != nil {
+				bad = "nested: " + v.Clause + "\n" + v.Detail
+			}
+		}
 	} else {
 		cutImages(&crashPoint{Snap: s.snap, Synced: s.synced}, pairCutCap, nil, func(img *Snap, desc string) bool {
 			if desc != r.Cut {
